@@ -26,8 +26,10 @@ Inductive case :=
 | CMux (tbl : list ha_route) (passthrough : bool) (rq : ha_req) (cls : Z) (ok200 : bool) (backend : Z)
 (* HTTPAuthMiddleware around a marker handler *)
 | CMw (c : ha_cfg) (rq : ha_req) (status : Z) (reached : bool)
-(* http_proxy plugin: status, target reached, connection closed by the plugin after the answer *)
-| CHp (c : ha_cfg) (rq : ha_req) (status : Z) (reached : bool)
+(* http_proxy plugin: status, target reached.  how = 0: the request is the first of its connection, written in one piece;
+   1: it follows an unauthenticated GET (answered 407) on the same connection; 2: first of its connection, but the first
+   segment carries only 4 bytes of the request line *)
+| CHp (how : Z) (c : ha_cfg) (rq : ha_req) (status : Z) (reached : bool)
 (* socks5 plugin: cls 0 no acceptable method | 1 closed without answer | 2 auth failure | 3 granted method 0 | 4 granted method 2 *)
 | CS5 (c : ha_cfg) (methods : list Z) (ver : Z) (u p : bytes) (cls : Z) (reached : bool)
 (* static_file plugin *)
@@ -65,7 +67,7 @@ Definition C07_holds (c : case) : bool :=
   | CMw c rq _ reached | CSf _ c rq _ reached =>
       if reached then match ha_cfg_creds c with None => true | Some x => opt_pair_eqb (Some x) (ha_parse_basic (rq_auth rq)) end
       else true
-  | CHp c rq _ reached =>
+  | CHp _ c rq _ reached =>
       if reached then match ha_cfg_creds c with None => true | Some x => opt_pair_eqb (Some x) (ha_http_proxy_presented rq) end
       else true
   | CS5 c _ _ u p _ reached =>
@@ -121,10 +123,14 @@ Definition check_case (c : case) : Z :=
       | MwNext => if reached && (status =? 200) then 0 else 21
       | MwUnauthorized => if negb reached && (status =? 401) then 0 else 22
       end
-  | CHp c rq status reached =>
-      match ha_http_proxy c rq with
-      | HpProxy => if reached && (status =? 200) then 0 else 31
-      | HpChallenge _ => if negb reached && (status =? 407) then 0 else 32
+  | CHp how c rq status reached =>
+      (* the request under observation is the last of its connection *)
+      let sniff := (how =? 0) && match rq_form rq with FConnect => true | _ => false end in
+      let conn := if how =? 1 then [mk_rq FAbsolute PH11 [] (rq_url_host rq) (rq_hdr_host rq) (rq_path rq) None None 0; rq] else [rq] in
+      match last (map Some (ha_http_proxy_conn sniff c conn)) None with
+      | Some HpProxy => if reached && (status =? 200) then 0 else 31
+      | Some (HpChallenge _) => if negb reached && (status =? 407) then 0 else 32
+      | None => 33
       end
   | CS5 c methods ver u p cls reached =>
       match ha_socks5 c {| s5_methods := methods; s5_ver := ver; s5_user := u; s5_pass := p |} with
